@@ -1,0 +1,97 @@
+//go:build verif
+
+package tx_pool
+
+import (
+	"fmt"
+	"time"
+
+	"github.com/kardiachain/go-kardia/lib/common"
+	"github.com/kardiachain/go-kardia/types"
+)
+
+// Exported accessors used only by the verification harness.
+
+// VerifWaitReorg requests an (empty) reorg run and waits for its completion, so
+// that asynchronous promotions scheduled earlier have been carried out.
+func (pool *TxPool) VerifWaitReorg() { <-pool.requestReset(nil, nil) }
+
+// VerifSetEvictionInterval changes the package-level eviction tick used by
+// pools created afterwards and returns the previous value.
+func VerifSetEvictionInterval(d time.Duration) time.Duration {
+	old := evictionInterval
+	evictionInterval = d
+	return old
+}
+
+// VerifTryLock reports whether the pool mutex can be write-locked right now.
+func (pool *TxPool) VerifTryLock() bool {
+	if pool.mu.TryLock() {
+		pool.mu.Unlock()
+		return true
+	}
+	return false
+}
+
+// VerifIndex is a snapshot of the pool's internal indexes taken under the pool lock.
+type VerifIndex struct {
+	Pending      map[common.Address][]common.Hash // nonce-sorted
+	Queue        map[common.Address][]common.Hash // nonce-sorted
+	All          map[common.Hash]bool             // value: local
+	PricedRemote int                              // size of the price heap after a re-heap
+	AllRemote    int
+	PendingNonce map[common.Address]uint64
+	Locals       map[common.Address]bool
+}
+
+// VerifSnapshot returns the internal indexes; consistency problems the pool's
+// own test helper checks for (all vs lists, priced vs remotes, pending nonces)
+// are returned as an error.
+func (pool *TxPool) VerifSnapshot() (*VerifIndex, error) {
+	pool.mu.RLock()
+	defer pool.mu.RUnlock()
+	ix := &VerifIndex{
+		Pending:      map[common.Address][]common.Hash{},
+		Queue:        map[common.Address][]common.Hash{},
+		All:          map[common.Hash]bool{},
+		PendingNonce: map[common.Address]uint64{},
+		Locals:       map[common.Address]bool{},
+	}
+	var err error
+	for addr, l := range pool.pending {
+		var last uint64
+		for _, tx := range l.Flatten() {
+			ix.Pending[addr] = append(ix.Pending[addr], tx.Hash())
+			if tx.Nonce() > last {
+				last = tx.Nonce()
+			}
+		}
+		ix.PendingNonce[addr] = pool.pendingNonces.get(addr)
+		if l.Len() > 0 && ix.PendingNonce[addr] != last+1 && err == nil {
+			err = fmt.Errorf("pending nonce mismatch for %x: have %d, want %d", addr[:4], ix.PendingNonce[addr], last+1)
+		}
+	}
+	for addr, l := range pool.queue {
+		for _, tx := range l.Flatten() {
+			ix.Queue[addr] = append(ix.Queue[addr], tx.Hash())
+		}
+	}
+	pool.all.Range(func(hash common.Hash, tx *types.Transaction, local bool) bool {
+		ix.All[hash] = local
+		return true
+	}, true, true)
+	pool.priced.Reheap()
+	ix.PricedRemote = pool.priced.remotes.Len()
+	ix.AllRemote = pool.all.CountRemote()
+	for a := range pool.locals.accounts {
+		ix.Locals[a] = true
+	}
+	np, nq := pool.stats()
+	if total := pool.all.Count(); total != np+nq && err == nil {
+		err = fmt.Errorf("total transaction count %d != %d pending + %d queued", total, np, nq)
+	}
+	if ix.PricedRemote != ix.AllRemote && err == nil {
+		err = fmt.Errorf("priced remote count %d != indexed remote count %d", ix.PricedRemote, ix.AllRemote)
+	}
+	return ix, err
+}
